@@ -425,6 +425,17 @@ def schwab_export(rng):
         rows.append({"Date": d, "Action": "NRA Withholding", "Symbol": s, "Description": "x", "Quantity": "", "Price": "", "Fees & Comm": "", "Amount": "-$1.50"})
         rows.append({"Date": d, "Action": "Buy", "Symbol": s, "Description": "x", "Quantity": "1", "Price": "$2", "Fees & Comm": "", "Amount": ""})
         rows.append({"Date": d, "Action": rng.choice(["Weird Action", "Stock Split", "Journal"]), "Symbol": s, "Description": "x", "Quantity": "", "Price": "", "Fees & Comm": "", "Amount": ""})
+    # dividends whose withholdings are booked on other days, several per dividend and per symbol: whatever pairs them up must not do so in hash order
+    for s in rng.sample(["HHH", "III", "JJJ", "KKK", "LLL"], 4):
+        rows.append({"Date": "03/01/2024", "Action": rng.choice(["Cash Dividend", "Qualified Dividend"]), "Symbol": s, "Description": "x", "Quantity": "", "Price": "", "Fees & Comm": "", "Amount": "$%d.00" % rng.randint(10, 99)})
+        for dd, act in (("03/04/2024", "NRA Withholding"), ("03/06/2024", "NRA Tax Adj"), ("02/28/2024", "NRA Withholding")):
+            rows.append({"Date": dd, "Action": act, "Symbol": s, "Description": "x", "Quantity": "", "Price": "", "Fees & Comm": "", "Amount": "-$%d.%02d" % (rng.randint(1, 9), rng.randint(0, 99))})
+    try:
+        from . import props_schwab as PS
+        ex = PS.gen_export(rng, n=rng.randint(4, 10), hostile=0)
+        rows += [x for x in (ex[0] if isinstance(ex, tuple) else ex) if isinstance(x, dict)]
+    except Exception: pass
+    rng.shuffle(rows)
     return json.dumps({"BrokerageTransactions": rows})
 
 def k_c16(ctx):
